@@ -88,6 +88,7 @@ def generate(ck):
                 "gor_eval": wl.f(np.exp(rng.uniform(np.log(20), np.log(2500)))),
                 "Tpc": Tpc,
                 "ppc": ppc,
+                "threads": [wl.oil_params(rng) for _ in range(3)] if i % 80 == 13 else None,
             }
         )
     return descs
@@ -115,6 +116,12 @@ def run_case(ck, desc):
     pb = float(oil.pressure_bubblepoint_Standing(T, api, gg, gor))
     p = pb if desc["p"] is None else desc["p"]
     nonzero = 0
+    if desc.get("threads"):
+        # the derivative functions and their parents from four threads at once, each with its own fluid
+        sets = [desc["oil"]] + desc["threads"]
+        pbs = [float(oil.pressure_bubblepoint_Standing(*o)) for o in sets]
+        P = np.array([15.0, 0.5 * min(pbs), min(pbs), 0.5 * (min(pbs) + max(pbs)), max(pbs), 1.7 * max(pbs)])
+        wl.judge_thread_groups(ck, desc, wl.correlation_thread_groups(sets, [(desc["water_T"] + 30 * k, 2.0 * k) for k in range(4)], P, derivatives=True))
 
     # (a) water FVF pressure derivative
     Tw, pw = desc["water_T"], desc["water_p"]
